@@ -1663,7 +1663,11 @@ func genRoles(rng *rand.Rand, name string) *Plan {
 		case 8:
 			submit([]string{"FreezeRole", "ActivateRole", "LogoutRole"}[rng.Intn(3)], []string{"@newadmin1", "@aud1", "@aud2", "@aud1", "@newadmin1", "@admin3"}[rng.Intn(6)], "r")
 		case 9:
-			p.Steps = append(p.Steps, Step{Step: "block", Txs: []Tx{{K: "transfer", From: "u1", Dst: "u2"}}})
+			if rng.Intn(2) == 0 {
+				p.Steps = append(p.Steps, Step{Step: "restart"})
+			} else {
+				p.Steps = append(p.Steps, Step{Step: "block", Txs: []Tx{{K: "transfer", From: "u1", Dst: "u2"}}})
+			}
 		default: // conclude one of the open proposals (not necessarily the oldest)
 			if len(open) > 0 {
 				j := rng.Intn(len(open))
